@@ -926,7 +926,7 @@ def zlib_compress(interp, data, *a, **k):
         return zlib.compress(data, *a, **k)
     c = ctx()
     n = c.fresh_int("zlen")
-    c.add_fact(n >= 1)
+    c.add_fact(z3.And(n >= 1, n <= data.length_term() + data.length_term() / 1000 + 64))
     c.log.append(("zlib.compress", data))
     return Rope.blob("z", n, origin=("z", data), assume_nonneg=False)
 
